@@ -74,10 +74,23 @@ def gen_project(seed: int) -> T.Dict[str, str]:
     L.append("install_data('tmpl.in', install_dir: get_option('datadir') / 'det', install_tag: 'extra')")
     L.append("install_subdir('include', install_dir: get_option('includedir') / 'sub')")
     L.append("sp = subproject('spx', default_options: ['sval=fromparent'])")
+    # a subproject that may be reached for the first time by a reconfigure, with default_options of its own that matter
+    L.append("if get_option('with_spy')\n  spy = subproject('spy')\nendif")
+    # configure-time command whose depfile names several files outside the build dir (they become regeneration inputs)
+    L.append("configure_file(output: 'cmd.out', command: [py, files('depgen.py'), '@OUTPUT@', '@DEPFILE@', meson.current_source_dir()], depfile: 'cmd.d')")
     L.append("summary({'z': 1, 'b': true, 'a': 'x'}, section: 'S')")
     L.append("summary('libs', [%s].length())" % ', '.join(libs))
     files['meson.build'] = '\n'.join(L) + '\n'
-    files['meson.options'] = "option('feat', type: 'boolean', value: true)\noption('name', type: 'string', value: 'n')\noption('lvl', type: 'combo', choices: ['x', 'y', 'z'], value: 'y')\n"
+    files['meson.options'] = "option('feat', type: 'boolean', value: true)\noption('name', type: 'string', value: 'n')\noption('lvl', type: 'combo', choices: ['x', 'y', 'z'], value: 'y')\noption('with_spy', type: 'boolean', value: true)\n"
+    files['depgen.py'] = ("import sys, os\nout, dep, src = sys.argv[1:4]\nopen(out, 'w').write('x')\n"
+                          "names = ['zeta.txt', 'alpha.txt', 'mid.txt', 'beta.txt', 'omega.txt', 'gamma.txt']\n"
+                          "open(dep, 'w').write(os.path.basename(out) + ': ' + ' '.join(os.path.join(src, n) for n in names) + '\\n')\n")
+    for n in ['zeta.txt', 'alpha.txt', 'mid.txt', 'beta.txt', 'omega.txt', 'gamma.txt']:
+        files[n] = n + '\n'
+    files['subprojects/spy/meson.build'] = ("project('spy', 'c', version: '0.2', default_options: ['warning_level=3', 'werror=true', 'c_std=c99', 'yopt=fromproject'])\n"
+                                            "static_library('spyl', 'spy.c', c_args: ['-DSPY_' + get_option('yopt')])\n")
+    files['subprojects/spy/meson.options'] = "option('yopt', type: 'string', value: 'ydef')\n"
+    files['subprojects/spy/spy.c'] = 'int spy(void){return 2;}\n'
     files['subprojects/spx/meson.build'] = ("project('spx', 'c', version: '0.1')\nlibsp = static_library('sp', 'sp.c')\n"
                                             "spx_dep = declare_dependency(link_with: libsp)\nmeson.override_dependency('spx', spx_dep)\n"
                                             "test('spt', executable('spe', 'spe.c', link_with: libsp))\n")
